@@ -166,7 +166,7 @@ func (s *JoiningSource) fileSourceHandler(blk *pbbstream.Block, obj interface{})
 				return stopSourceOnJoin
 			}
 		} else {
-			if src := s.liveSourceFactory.SourceFromBlockNum(blk.Number, s.handler); src != nil {
+			if src := s.liveSourceFrom(blk); src != nil {
 				s.liveSource = src
 				verifPoint("joining.handler_live_obtained")
 				return stopSourceOnJoin
@@ -178,6 +178,16 @@ func (s *JoiningSource) fileSourceHandler(blk *pbbstream.Block, obj interface{})
 	}
 
 	return s.handler.ProcessBlock(blk, obj)
+}
+
+// liveSourceFrom asks the live source factory to continue from the block the file source is delivering.
+// The join is made on the identity of that block when the factory can check it: a live source that sits
+// on another fork at this height (it has not seen the final block yet) must not take over.
+func (s *JoiningSource) liveSourceFrom(blk *pbbstream.Block) Source {
+	if byRef, ok := s.liveSourceFactory.(SourceFromBlockRefFactory); ok {
+		return byRef.SourceFromBlockRef(blk.AsRef(), s.handler)
+	}
+	return s.liveSourceFactory.SourceFromBlockNum(blk.Number, s.handler)
 }
 
 // isFirstDelivery tells whether the file source is delivering this block for the first time (step
